@@ -192,6 +192,35 @@ Theorem C20_getgradients_after_step : forall (T : Type) (st : @sem T) ob e words
 Proof. exact (@getgradients_after_step). Qed.
 Print Assumptions C20_getgradients_after_step.
 
+(* ---- deferred effect of `cvcflags` (colvar::set_cvc_flags / update_cvc_flags) ---- *)
+(* a cvcflags call only stores its flags (refused unless there is one per component): no number, no other variable changes *)
+Theorem C20_cvcflags_only_stores : forall (T : Type) (st : @sem T) e words x cs cur,
+  e_name e = "colvar_cvcflags" -> nth 2 words "" = x -> alookup x (sm_cv st) = Some cs -> cs_cvcs cs = Some cur ->
+  let r := set_pending cur (cs_pending cs) (parse_flags (nth 4 words "")) in
+  snd (body_sem st e words) = (if snd r then QInt 0 else QErr) /\
+  alookup x (sm_cv (fst (body_sem st e words))) = Some (mk_cvsem (cs_data cs) (cs_collect cs) (cs_valid cs) (Some cur) (fst r)) /\
+  sm_mod (fst (body_sem st e words)) = sm_mod st /\ sm_bias (fst (body_sem st e words)) = sm_bias st.
+Proof. exact (@cvcflags_body). Qed.
+Print Assumptions C20_cvcflags_only_stores.
+
+(* after ANY burst of cvcflags commands between two updates the components enabled by the next update are those of the LAST
+   accepted command - also when that command equals the state currently in effect -, unchanged if none was accepted; a command
+   that enables nothing switches everything off and stays pending (the update fails) *)
+Theorem C20_cvcflags_last_command_wins : forall cur cmds,
+  apply_pending cur (pending_after cur None cmds) =
+  match last_accepted cur cmds with
+  | None => (cur, None)
+  | Some f => if existsb (fun b => b) f then (f, None) else (f, Some f)
+  end.
+Proof. exact cvcflags_last_command_wins. Qed.
+Print Assumptions C20_cvcflags_last_command_wins.
+
+Theorem C20_last_accepted_is_the_last_well_formed : forall cur cmds f, last_accepted cur cmds = Some f ->
+  List.length f = List.length cur /\ exists before after, cmds = (before ++ f :: after)%list /\
+  Forall (fun g => List.length g <> List.length cur) after.
+Proof. exact last_accepted_spec. Qed.
+Print Assumptions C20_last_accepted_is_the_last_well_formed.
+
 (* over ANY history of calls, steps with arbitrary observations and engine-side configurations the data stay attached to
    exactly the objects that exist (nothing can be read about a deleted object, a new object starts unknown) *)
 Theorem C20_data_follow_objects_over_any_history : forall (T : Type) tbl parse_conf read_file evs (st : @sem T),
@@ -246,10 +275,10 @@ Proof.
 Qed.
 
 Definition ex_sem : @sem Z :=
-  mk_sem ex_st [("x", mk_cvsem None false (Some false))] [("h", None)] None.
+  mk_sem ex_st [("x", mk_cvsem None false (Some false) None None)] [("h", None)] None.
 Definition ex_ob : @obs Z :=
   mk_obs true (mk_moddata 7 42%Z [0%Z] [1%Z] [0%Z] [(1, 2, 3)%Z] [(4, 5, 6)%Z] [(0, 0, 0)%Z])
-         [("x", mk_cvdata 11%Z 12%Z 13%Z true [0%Z] [(1, 0, 0)%Z])] [("h", 5%Z)].
+         [("x", mk_cvdata 11%Z 12%Z 13%Z true [0%Z] [(1, 0, 0)%Z] [true; true] [4; 7]%Z)] [("h", 5%Z)].
 (* a step, malformed calls and queries, then the queries; getgradients: error, still error after set, answer after a step *)
 Example C20_example_semantics :
   sem_wf ex_sem /\
@@ -272,3 +301,16 @@ Proof.
     - left. vm_compute. reflexivity. }
   vm_compute. repeat split.
 Qed.
+
+(* "1 0" then "1 1" (the state in effect) then a malformed command: both components are on at the next update *)
+Example C20_example_cvcflags :
+  parse_flags "1 0" = [true; false] /\ parse_flags " 1  -2 0x" = [true; true; false] /\ parse_flags "1 abc 1" = [true] /\
+  parse_flags "2147483648 1" = [] /\
+  apply_pending [true; true] (pending_after [true; true] None [parse_flags "1 0"; parse_flags "1 1"; parse_flags "1"]) = ([true; true], None) /\
+  apply_pending [true; true] (pending_after [true; true] None [parse_flags "1 1"; parse_flags "0 1"]) = ([false; true], None) /\
+  apply_pending [true; true] (pending_after [true; true] None [parse_flags "0 0"]) = ([false; false], Some [false; false]) /\
+  (let st := run_sevents script_table ex_parse ex_read ex_sem
+               [SStep ex_ob; SCmd ["cv"; "colvar"; "x"; "cvcflags"; "1 0"]; SCmd ["cv"; "colvar"; "x"; "cvcflags"; "1 1"]; SCmd ["cv"; "colvar"; "x"; "cvcflags"; "1"]; SStep ex_ob] in
+   match alookup "x" (sm_cv st) with Some c => cs_cvcs c = Some [true; true] /\ cs_pending c = None | None => False end) /\
+  combine Z.add 0%Z [4; 7]%Z [false; true] = 7%Z.
+Proof. vm_compute. repeat split. Qed.
